@@ -25,6 +25,12 @@ def unwrap(v, adt, depth=0):
     return v
 
 
+def same_file(F, key, file):
+    """constructors may delegate validation / construction to a sibling type of the same source file"""
+    g = F.fn_opt(key)
+    return g is not None and g.file == file and g.kind in ("Fn", "AssocFn")
+
+
 def constructors(F, prefixes):
     for f in F.all_fns:
         if f.kind != "AssocFn" or not f.impl_self_adt or f.impl_trait or not f.sig or f.from_expansion:
@@ -60,7 +66,7 @@ def check(ctx, rule, prefixes, floor):
         fnames = {fl["name"]: fl["i"] for fl in fields}
         args = [Sym("param:%s" % name) for _, name in sorted(params)]
         it = install(Interp(f.body, chain(coll_oracle, std_oracle), args, facts=F,
-                            inline=lambda k, adt=adt: k.startswith(adt + "::") or k.startswith("<" + adt), max_visits=6, max_paths=200))
+                            inline=lambda k, adt=adt, file=f.file: k.startswith(adt + "::") or k.startswith("<" + adt) or same_file(F, k, file), max_visits=6, max_paths=200))
         it.init_state = {"next_vec": 0}
         n += 1
         bad = []
